@@ -1,6 +1,7 @@
 import CalicoVerif.Proofs.C06Roundtrip
 import CalicoVerif.Proofs.C06Wf
 import CalicoVerif.Proofs.C06Validate
+import CalicoVerif.Proofs.C06Fuel
 /-!
 C06 — Selectors keep their meaning through canonical formatting.
 
@@ -11,12 +12,17 @@ Statement of the property: for every selector expression `s` the parser accepts
 (`parse s = ok t`), the canonical text `t.text` parses back to a selector that
 (a) matches the same label sets, (b) has the same canonical text, (c) has the
 same identity hash; and (d) `Validate` accepts exactly what `Parse` accepts.
+All four are proved at full strength for the current code.
 
-(a) and (d) are proved at full strength.  (b) and (c) are FALSE of the current
-code (`reparse_same_text_counterexample`, reproduced on the real parser by the
-harness oracle, signature `nested-not`); they are proved as `…_partial` under
-the extra hypothesis `NoNestedNot t`, and `reparse_exact` says precisely what
-the re-parse returns in every case (`collapse t`).
+History: before /repo commit aa96e01 ("fix: keep nested negations distinct in a
+selector's canonical text") (b) and (c) were FALSE: `!(!has(a))` parsed to
+`Not(Not(Has a))`, was printed as `!!has(a)`, and that text re-parses to `has(a)`
+(the parser folds a run of `!`).  The then-model had the witness
+  parse "!(!has(a))" = ok (not (not (has a))),  text = "!!has(a)",
+  parse "!!has(a)" = ok (has a),  text "has(a)" ≠ "!!has(a)".
+The printer now parenthesises a directly nested negation; the harness oracle
+still reports signature `nested-not` should the old behaviour ever come back
+(`corpus/C06/nested-not.ops` replays the witness on every run).
 -/
 namespace CalicoVerif.C06
 
@@ -28,72 +34,40 @@ literals are strictly ascending (sorted, de-duplicated), `&&`/`||` nodes have at
 least two operands. -/
 theorem parse_wf {s : Str} {t : Node} (h : parse s = .ok t) : WF t := CalicoVerif.C06.parse_wf_aux h
 
-/-- The canonical text of any well-formed tree parses, and yields the tree with
-stacked negations folded (`!!x ↦ x`). -/
-theorem parse_print_collapse {t : Node} (h : WF t) : parse t.text = .ok (collapse t) :=
+/-- FULL: `parse ∘ print = id` on every well-formed tree. -/
+theorem parse_print_roundtrip {t : Node} (h : WF t) : parse t.text = .ok t :=
   parse_text t h
 
-/-- `parse ∘ print = id` on well-formed trees without a directly nested negation.
-(`_partial`: the `NoNestedNot` hypothesis cannot be derived from `parse s = ok t`,
-see `reparse_same_text_counterexample`.) -/
-theorem parse_print_roundtrip_partial {t : Node} (h : WF t) (hn : NoNestedNot t) :
-    parse t.text = .ok t := by
-  rw [parse_text t h, collapse_eq_self t hn]
-
-/-- What re-parsing the canonical text of an accepted selector returns, exactly. -/
-theorem reparse_exact {s : Str} {t : Node} (h : parse s = .ok t) : parse t.text = .ok (collapse t) :=
+/-- FULL: re-parsing the canonical text of an accepted selector returns the very
+same tree. -/
+theorem reparse_exact {s : Str} {t : Node} (h : parse s = .ok t) : parse t.text = .ok t :=
   parse_text t (parse_wf h)
 
-/-! ### (a) same meaning — full strength -/
+/-! ### (a) same meaning, (b) same text, (c) same id — full strength -/
 
 /-- FULL: the canonical text of every accepted selector parses back to a selector
 that matches exactly the same label maps. -/
 theorem reparse_same_eval {s : Str} {t : Node} (h : parse s = .ok t) :
     ∃ t', parse t.text = .ok t' ∧ ∀ labels : Labels, t'.eval labels = t.eval labels :=
-  ⟨collapse t, reparse_exact h, fun labels => eval_collapse labels t⟩
+  ⟨t, reparse_exact h, fun _ => rfl⟩
 
-/-! ### (b), (c) same text / same id — false in general, proved without nested negation -/
-
-/-- The selector text `!(!has(a))`. -/
-def nestedNotInput : Str := ['!','(','!','h','a','s','(','a',')',')']
-
-/-- WITNESS that "same canonical text" is false of the current code:
-`!(!has(a))` is accepted, its canonical text is `!!has(a)`, and that text parses
-to `has(a)`, whose canonical text is `has(a)`. -/
-theorem reparse_same_text_counterexample :
-    ∃ s t t', parse s = .ok t ∧ parse t.text = .ok t' ∧ t'.text ≠ t.text :=
-  ⟨nestedNotInput, .not (.not (.has ['a'])), .has ['a'], by rfl, by rfl, by decide⟩
-
-/-- the same witness, spelled out. -/
-example : parse nestedNotInput = .ok (.not (.not (.has ['a']))) := by rfl
-example : (Node.not (.not (.has ['a']))).text = ['!','!','h','a','s','(','a',')'] := by decide
-example : parse ['!','!','h','a','s','(','a',')'] = .ok (.has ['a']) := by rfl
-example : ¬ NoNestedNot (.not (.not (.has ['a']))) := by simp [NoNestedNot, Node.isNot]
-
-/-- WITNESS for the identity hash: for any hash that tells the two texts apart
-(SHA-224 does: the harness compares the real `UniqueID()`s), the ids differ. -/
-theorem reparse_same_id_counterexample (H : Str → Str)
-    (hH : H ['s',':','!','!','h','a','s','(','a',')'] ≠ H ['s',':','h','a','s','(','a',')']) :
-    ∃ s t t', parse s = .ok t ∧ parse t.text = .ok t' ∧ t'.uniqueID H ≠ t.uniqueID H := by
-  refine ⟨nestedNotInput, .not (.not (.has ['a'])), .has ['a'], by rfl, by rfl, ?_⟩
-  intro e
-  apply hH
-  have : (Node.has ['a']).uniqueID H = 's' :: ':' :: H ['s',':','h','a','s','(','a',')'] := rfl
-  rw [this] at e
-  have h2 : (Node.not (.not (.has ['a']))).uniqueID H = 's' :: ':' :: H ['s',':','!','!','h','a','s','(','a',')'] := rfl
-  rw [h2] at e
-  simpa using e.symm
-
-/-- PARTIAL (needs `NoNestedNot t`): the canonical text parses back to the same
-tree, hence to the same canonical text. -/
-theorem reparse_same_text_partial {s : Str} {t : Node} (h : parse s = .ok t) (hn : NoNestedNot t) :
+/-- FULL: … to a selector with the same canonical text. -/
+theorem reparse_same_text {s : Str} {t : Node} (h : parse s = .ok t) :
     ∃ t', parse t.text = .ok t' ∧ t'.text = t.text :=
-  ⟨t, parse_print_roundtrip_partial (parse_wf h) hn, rfl⟩
+  ⟨t, reparse_exact h, rfl⟩
 
-/-- PARTIAL (needs `NoNestedNot t`): same identity hash, for every hash function. -/
-theorem reparse_same_id_partial (H : Str → Str) {s : Str} {t : Node} (h : parse s = .ok t)
-    (hn : NoNestedNot t) : ∃ t', parse t.text = .ok t' ∧ t'.uniqueID H = t.uniqueID H :=
-  ⟨t, parse_print_roundtrip_partial (parse_wf h) hn, rfl⟩
+/-- FULL: … and the same identity hash, for every hash function. -/
+theorem reparse_same_id (H : Str → Str) {s : Str} {t : Node} (h : parse s = .ok t) :
+    ∃ t', parse t.text = .ok t' ∧ t'.uniqueID H = t.uniqueID H :=
+  ⟨t, reparse_exact h, rfl⟩
+
+/-- The former counterexample `!(!has(a))` now round-trips. -/
+def nestedNotInput : Str := ['!','(','!','h','a','s','(','a',')',')']
+example : parse nestedNotInput = .ok (.not (.not (.has ['a']))) := by rfl
+example : (Node.not (.not (.has ['a']))).text = nestedNotInput := by decide
+/-- `!!has(a)` is still accepted and folded by the parser (`has(a)`); it is simply
+no longer anything the printer emits. -/
+example : parse ['!','!','h','a','s','(','a',')'] = .ok (.has ['a']) := by rfl
 
 /-! ### (d) Validate accepts exactly what Parse accepts — full strength -/
 
@@ -112,6 +86,25 @@ theorem validate_iff_parse (s : Str) : validate s = .ok () ↔ ∃ t, parse s = 
   | error e => simp
   | ok t => simp
 
+/-! ### consequences and model hygiene -/
+
+/-- The canonical text determines the tree: two well-formed trees (in particular two
+parser-built selectors) with the same canonical text are the same tree.  (This is
+what makes `Selector.Equal`, which compares hashes of the text, an equality test
+on selectors.) -/
+theorem text_injective {t1 t2 : Node} (h1 : WF t1) (h2 : WF t2) (h : t1.text = t2.text) : t1 = t2 := by
+  have e1 := parse_text t1 h1
+  have e2 := parse_text t2 h2
+  rw [h, e2] at e1
+  injection e1 with e1
+  exact e1.symm
+
+/-- The model's `fuel` is a pure totalisation device: `Tokenize`, `Parse` and
+`Validate` never return the model-only error `Err.fuel`. -/
+theorem tokenize_ne_fuel (s : Str) : tokenize s ≠ .error .fuel := tokenize_ne_fuel_aux s
+theorem parse_ne_fuel (s : Str) : parse s ≠ .error .fuel := parse_ne_fuel_aux s
+theorem validate_ne_fuel (s : Str) : validate s ≠ .error .fuel := validate_ne_fuel_aux s
+
 /-! ### non-vacuity -/
 
 /-- `(a == "x" && !has(b)) || c in {"p", "q"}` … -/
@@ -121,8 +114,6 @@ def sampleTree : Node :=
 example : WF sampleTree := by
   simp [sampleTree, WF, WFList, ValidLabel, QuoteSafe, StrictSorted, maxLabelLength, strLt]
   decide
-example : NoNestedNot sampleTree := by
-  simp [sampleTree, NoNestedNot, NoNestedNotList, Node.isNot]
 example : parse sampleTree.text = .ok sampleTree := by rfl
 /-- an accepted input whose tree differs from the input text's shape (sorting,
 de-duplication, quote normalisation, `notin`). -/
